@@ -367,6 +367,7 @@ func RunUnpackSafety(id, tier string) int {
 			{unpackCfg{}, true, 3, true},
 			{unpackCfg{UID: 65534}, true, 3, true},
 			{unpackCfg{Dst: "slash"}, true, 2, true},
+			{unpackCfg{Dst: "slash"}, false, 3, true},
 			{unpackCfg{Dst: "dot"}, true, 2, true},
 			{unpackCfg{Dst: "dotdot"}, true, 2, true},
 			{unpackCfg{Allow: true}, true, 2, true},
@@ -385,6 +386,7 @@ func RunUnpackSafety(id, tier string) int {
 			{unpackCfg{Allow: true}, false, 2, true},
 			{unpackCfg{Prepop: true}, false, 2, true},
 			{unpackCfg{}, false, 3, true},
+			{unpackCfg{Dst: "slash"}, false, 3, true},
 		}
 	}
 	var planStats []map[string]any
